@@ -619,6 +619,10 @@ class Evaluator:
                 self._assign(e_, val.items[len(val.items) - after + j], env, fn, depth)
         elif isinstance(t, (ast.Tuple, ast.List)):
             items = val.items if isinstance(val, TList) else None
+            if isinstance(val, TObj) and any(str(b_).split('.')[-1] == 'NamedTuple' for b_ in val.cls.bases):
+                names_ = list(self.prog.class_fields(val.cls))
+                if len(names_) == len(t.elts) and all(n_ in val.fields for n_ in names_):
+                    items = [val.fields[n_] for n_ in names_]          # a NamedTuple unpacks into its fields, in order
             for i, e in enumerate(t.elts):
                 if items is not None and i < len(items) and not isinstance(items[i], (RepL, AltL)):
                     self._assign(e, items[i], env, fn, depth)
@@ -766,6 +770,10 @@ class Evaluator:
         if b is TNone:
             c = self.is_none(a)
             return c if eq else c_not(c)
+        for x_, y_ in ((a, b), (b, a)):
+            if isinstance(x_, tuple) and x_ and x_[0] == 'len' and isinstance(x_[1], TList) and isinstance(y_, TConst) and \
+                    isinstance(y_.value, int) and all(not isinstance(z_, (RepL, AltL)) for z_ in x_[1].items):
+                return TRUE if (len(x_[1].items) == y_.value) == eq else FALSE
         if isinstance(a, tuple) and a and a[0] == 'len' and isinstance(b, tuple) and b and b[0] == 'len':
             same = self._same_length(a[1], b[1])
             if same is not None:
@@ -1373,6 +1381,16 @@ class Evaluator:
             i = e.slice.value
             if all(not isinstance(x, (RepL, AltL)) for x in base.items) and -len(base.items) <= i < len(base.items):
                 return base.items[i]
+        if isinstance(base, TList) and all(not isinstance(x, (RepL, AltL)) for x in base.items):
+            try:
+                if isinstance(e.slice, ast.Slice):
+                    sl = slice(*(None if x is None else ast.literal_eval(ast.unparse(x)) for x in (e.slice.lower, e.slice.upper, e.slice.step)))
+                    return TList(list(base.items[sl]))
+                i = ast.literal_eval(ast.unparse(e.slice))          # also `-1`
+                if isinstance(i, int) and -len(base.items) <= i < len(base.items):
+                    return base.items[i]
+            except (ValueError, SyntaxError, TypeError):
+                pass
         if isinstance(base, TList) and isinstance(e.slice, ast.Constant) and isinstance(e.slice.value, int) and \
                 len(base.items) == 1 and isinstance(base.items[0], RepL) and len(base.items[0].items) == 1 and \
                 isinstance(base.items[0].items[0], Sym):
@@ -1665,6 +1683,14 @@ class Evaluator:
             return ('len', args[0])
         if name == 'bool' and len(args) == 1 and not kwargs:
             return self.truthy(args[0])
+        if name == 'callable' and len(args) == 1 and not kwargs:
+            v = args[0]
+            if isinstance(v, TFunc) or (isinstance(v, tuple) and v and v[0] in ('bound', 'lambda', 'class')):
+                return TRUE
+            if isinstance(v, (TStr, TBlock, TList, TConst, TEnum)) or v is TNone or \
+                    (isinstance(v, TObj) and self.prog.lookup_method(v.cls, '__call__') is None):
+                return FALSE
+            return Cond('opaque', ('callable',))
         if name in ('sum', 'min', 'max', 'abs') and args:
             return ('num', name)            # a number the templates do not depend on textually (only tested in conditions)
         if name in ('list', 'tuple') and args:
